@@ -50,7 +50,7 @@ def cases(tier, seed):
     if tier == "thorough":
         for lo in range(0, 1903, chunk):
             yield {"kind": "tiny", "params": [2, 6, [3, 4, 5]], "lo": lo, "hi": min(1903, lo + chunk)}
-    nmesh, maxf = (360, 200) if tier == "quick" else (5000, 3000)
+    nmesh, maxf = (360, 200) if tier == "quick" else (30000, 3000)
     for i in range(nmesh):
         mf = maxf if i % 10 == 0 else min(maxf, 150)
         d = gen.random_mesh(rng, mf)
@@ -59,7 +59,7 @@ def cases(tier, seed):
             "order": int(rng.integers(0, len(ORDERS))), "layout": ux.LAYOUTS[int(rng.integers(0, 4))] if rng.random() < 0.5 else "C",
         }
     # histories over two grids: the attributes of A and B are first read in an interleaved order
-    npair = 60 if tier == "quick" else 1200
+    npair = 60 if tier == "quick" else 8000
     for i in range(npair):
         d = gen.random_mesh(rng, 80)
         kind = ["renumbered_twin", "other_mesh", "same_source"][i % 3]
